@@ -674,6 +674,69 @@ func paillierRefusalCases() []refusalCase {
 				x.Observe(c.name, err == nil)
 			}
 		}},
+		{"plaintext-from-smaller-ring", func(x *engine.X, k *pkey, _ *pkey) {
+			// a residue of a smaller ring Z_q (q <= N: e.g. a curve scalar) handed over without re-wrapping it in Z_N
+			// (paillier.NewPlaintext; znstar's Representative documents "the plaintext's modulus must be <= N"): it is
+			// the integer m in [0, N), so Enc(m; r) is the textbook ciphertext and decryption returns m
+			N := k.ref.N
+			for _, qc := range []struct {
+				name string
+				q    *big.Int
+			}{{"2^61-1", new(big.Int).Sub(new(big.Int).Lsh(bi(1), 61), bi(1))}, {"3", bi(3)}, {"N-2", add(N, bi(-2))}, {"N", N}} {
+				qn, err := num.NPlus().FromBig(qc.q)
+				if err != nil {
+					panic(engine.HarnessError{Msg: "NPlus.FromBig: " + err.Error()})
+				}
+				zq, err := num.NewZMod(qn)
+				if err != nil {
+					panic(engine.HarnessError{Msg: "num.NewZMod: " + err.Error()})
+				}
+				for _, mc := range []struct {
+					name string
+					v    *big.Int
+				}{{"0", bi(0)}, {"1", bi(1)}, {"2", bi(2)}, {"q-1", add(qc.q, bi(-1))}} {
+					if mc.v.Cmp(qc.q) >= 0 {
+						continue
+					}
+					x.Case(k.name + "/ptring/" + qc.name + "/" + mc.name)
+					m, err := zq.FromNat(natOf(mc.v))
+					if err != nil {
+						panic(engine.HarnessError{Msg: "ZMod.FromNat: " + err.Error()})
+					}
+					pt, err := guard(func() (*paillier.Plaintext, error) { return paillier.NewPlaintext(m) })
+					if err != nil {
+						x.Observe("NewPlaintext refuses", qc.name)
+						continue
+					}
+					rv := k.nonces[len(k.nonces)-1].v
+					r, err := k.nonce(rv)
+					if err != nil {
+						panic(engine.HarnessError{Msg: "nonce: " + err.Error()})
+					}
+					want := k.ref.Encrypt(mc.v, rv)
+					for who, enc := range map[string]func() (*paillier.Ciphertext, error){
+						"pk": func() (*paillier.Ciphertext, error) { return k.pk.EncryptWithNonce(pt, r) },
+						"sk": func() (*paillier.Ciphertext, error) { return k.sk.EncryptWithNonce(pt, r) },
+					} {
+						c, err := guard(enc)
+						if err != nil {
+							// a refusal is not a wrong value (the secret-key path only takes plaintexts of Z_N itself)
+							x.Observe(who, "refuses", qc.name)
+							continue
+						}
+						if c.Value().Value().Big().Cmp(want) != 0 {
+							x.Failf("paillier/encrypt/smaller-ring", "key %s: %s.EncryptWithNonce(%s in Z_%s; r) != (1+N)^m r^N mod N^2", k.name, who, mc.name, qc.name)
+							continue
+						}
+						dec, err := guard(func() (*paillier.Plaintext, error) { return k.sk.Decrypt(c) })
+						if err != nil || dec.Value().Big().Cmp(mc.v) != 0 {
+							x.Failf("paillier/decrypt/smaller-ring", "key %s: Decrypt(Enc(%s in Z_%s)) err=%v", k.name, mc.name, qc.name, err)
+						}
+					}
+					x.Observe(qc.name, mc.name)
+				}
+			}
+		}},
 		{"plaintext-symmetric", func(x *engine.X, k *pkey, _ *pkey) {
 			N := k.ref.N
 			h := new(big.Int).Rsh(N, 1)
